@@ -1199,6 +1199,31 @@ func specBoolByte(b bool) int {
 //@   requires node.dataItem != nil
 //@   ensures fresh(result) && len(result) == nvars(node.dataItem)
 
+// Size: the number of elements an item holds (C16: "its reported size is the number of elements it prints").
+//@ func (*IntNode).Size
+//@   property C16 C15
+//@   ensures result == len(node.values)
+
+//@ func (*UintNode).Size
+//@   property C16 C15
+//@   ensures result == len(node.values)
+
+//@ func (*FloatNode).Size
+//@   property C16 C15
+//@   ensures result == len(node.values)
+
+//@ func (*BinaryNode).Size
+//@   property C16 C15
+//@   ensures result == len(node.values)
+
+//@ func (*BooleanNode).Size
+//@   property C16 C15
+//@   ensures result == len(node.values)
+
+//@ func (*ListNode).Size
+//@   property C16 C15
+//@   ensures result == len(node.values)
+
 //@ func getVariableNames
 //@   property C16 C07
 //@   trusted_post
